@@ -16,7 +16,9 @@ Fixpoint zs_eqb (a b : list Z) : bool :=
 Definition ok (k : case) : bool :=
   match k with
   | CConsts c => cfg_eqb c documented
-  | COrbit c orbit => zs_eqb (map (interval c) (seq 0 (length orbit))) orbit
+  (* a draw with the jitter switched off is trunc(i + r), r in [0,1), in floating point: i, or i + 1 ns when r is within an ulp of 1
+     (about one draw in 10^5 at 10^11 ns) - exactly what in_pause says for jitter 0 *)
+  | COrbit c orbit => forallb (fun np => in_pause c (interval c (fst np)) (snd np)) (combine (seq 0 (length orbit)) orbit)
   | CJitter c n p => in_pause c (interval c n) p
   | CLoop c os sl => check_sleeps c (loop_sleeps 0 os) sl
   | CShared c p => in_pause c (interval c 0) p
